@@ -161,6 +161,17 @@ def run_rt(spec, acc):
                     time.sleep(jr.uniform(0.0005, 0.003))
                 time.sleep(0.004)
         threading.Thread(target=slow, daemon=True, name='vf-slow').start()
+        # ... and slow tasks on AppClock (GUI-style work, 1-6 ms each, every 10 ms):
+        # "whatever the ... number of other tasks" - a wake-up of another clock
+        # that falls into such a task is late, its logical time is not affected
+        from sc3.base.functions import Function
+        app_tasks = [0]
+
+        def app_slow():
+            time.sleep(jr.uniform(0.001, 0.006))
+            app_tasks[0] += 1
+            return None if slow_stop[0] else 0.01
+        clk.AppClock.sched(0, Function(app_slow))
     # a plain thread that keeps asking for the logical time (REPL / GUI style
     # use of the API) while the clock threads run routines
     reader_stop = [False]
@@ -282,6 +293,8 @@ def run_rt(spec, acc):
         reader_stop[0] = True
         acc.count('concurrent_time_reads', reads[0])
         slow_stop[0] = True
+        if cfg['slow']:
+            acc.count('slow_appclock_tasks', app_tasks[0])
         threading.Condition.wait = orig_wait
         inj.stop()
         burn.stop()
